@@ -1022,6 +1022,12 @@ impl Transaction {
                 error!("ERROR: SPV transaction creates outputs");
                 return false;
             }
+            if self.from.iter().any(|slip| slip.amount > 0) {
+                // Bound slips count as 0 in total_fees: without this an unsigned
+                // placeholder could remove somebody's NFT slip from the ledger
+                error!("ERROR: SPV transaction spends inputs");
+                return false;
+            }
             if self.total_fees > 0 {
                 error!("ERROR: SPV transaction contains invalid hash");
                 return false;
